@@ -41,7 +41,7 @@ func (c12) Components() map[string][]string {
 	}
 }
 func (c12) ProbeNames() []string {
-	return []string{"layout-whole", "layout-gpt", "layout-mbr", "blank", "over-stale", "type-fat12", "type-fat16", "type-fat32", "type-ext4", "type-iso9660", "type-squashfs", "create-refused", "boundary-sweep", "physical-4096-logical-512"}
+	return []string{"layout-whole", "layout-gpt", "layout-mbr", "blank", "over-stale", "type-fat12", "type-fat16", "type-fat32", "type-ext4", "type-iso9660", "type-squashfs", "create-refused", "boundary-sweep", "physical-4096-logical-512", "partition-beyond-4GiB"}
 }
 func (c12) Budget(tier string) (int, int, int) {
 	if tier == "thorough" {
@@ -60,6 +60,7 @@ func (c12) Gen(r *core.Rng, tier string, idx int) *core.Trace {
 	t.Cfg["size"] = c12Sizes[r.Intn(len(c12Sizes))] + 512*r.Range(0, 3)
 	t.Cfg["pss4k"] = int64(r.PickW(70, 30))
 	t.Cfg["gptidx"] = core.PickOf[int64](r, 1, 1, 2, 3, 5, 128) // GPT layout: the slot of the (only) partition - tables with gaps
+	t.Cfg["farpart"] = int64(r.PickW(80, 10, 10))
 	if r.Chance(25) {
 		// FAT type boundary sweep: consecutive sector counts around the sizes at which the cluster count crosses
 		// 4085 (FAT12|FAT16) and 65525 (FAT16|FAT32), for every plausible sectors-per-cluster value
@@ -223,6 +224,11 @@ func (p c12) Exec(t *core.Trace) *core.Result {
 	}
 	size = size / 4096 * 4096
 	partStart := int64(1 << 20)
+	if fp := t.I("farpart"); fp == 1 || fp == 2 {
+		// the partition begins at or just beyond 4 GiB from the start of the disk
+		partStart = 4<<30 + (fp-1)<<20
+		res.Probe("partition-beyond-4GiB")
+	}
 	devSize := size
 	part := 0
 	if layout != 0 {
